@@ -186,9 +186,13 @@ def ends(node, chars, i, cond):
     if k == "uletter":
         if i < n:
             ch = chars[i]
-            if (ch.concrete and ch.v >= 128) or (not ch.concrete and ch.width != 1):
-                raise Unsupported("\\p{L} on a non-ASCII subject")
-            c = in_ranges(ch, [(65, 90), (97, 122)])
+            if not ch.concrete and ch.width != 1:
+                raise Unsupported("\\p{L} on a symbolic non-ASCII subject")
+            if ch.concrete and ch.v >= 128:
+                import unicodedata
+                c = unicodedata.category(chr(ch.v)).startswith("L")       # general category L* of the code point
+            else:
+                c = in_ranges(ch, [(65, 90), (97, 122)])
             _merge(out, i + 1, z_and([cond, z_not(c) if node.a[0] else c]))
         return out
     if k == "bol":
